@@ -224,6 +224,53 @@ func C17(r *vf.Run) {
 		})
 		r.Cell("hostile-order:sequences")
 	}
+	if r.Phase("muldiv-fades") {
+		// what the function is for: a palette faded in and out - the multiplicand walks up and down in
+		// steps of one over a fixed divisor, every ratio applied to a handful of colours (so each ratio is
+		// asked for several times in a row), with reversals, pauses and the odd jump
+		nseq := r.N(48, 1024)
+		vf.Parallel(1, nseq, func(w, si int) {
+			g := r.Rand("fades").Fork(uint64(si))
+			var cells [3][3]int64
+			d := []int{31, 32, 16, 8, 255, 1 + g.Intn(255), 1 + g.Intn(64)}[g.Intn(7)]
+			pal := []int{0x7FFF, 0x0000, 0x7C1F, 0x03E0, int(g.U16()), int(g.U16()), 0x4210, 0x7BDE}
+			m := g.Intn(2 * d)
+			if m > 255 {
+				m = 255
+			}
+			dir := 1
+			var n int64
+			for step := 0; step < 600; step++ {
+				reps := 1 + g.Intn(len(pal))
+				if g.Intn(4) == 0 {
+					reps = 1 // a ratio used only once
+				}
+				for k := 0; k < reps; k++ {
+					check(pal[(step+k)%len(pal)], m, d, &cells)
+					n++
+				}
+				switch g.Intn(12) {
+				case 0:
+					dir = -dir
+				case 1: // pause: same ratio again
+					continue
+				case 2:
+					m = g.Intn(256)
+					continue
+				}
+				m += dir
+				if m < 0 {
+					m, dir = 0, 1
+				}
+				if m > 255 {
+					m, dir = 255, -1
+				}
+			}
+			r.Eval(n)
+			merge(&cells)
+		})
+		r.Cell("fades:sequences")
+	}
 	if r.Phase("muldiv-long-gaps") {
 		// one colour left alone while tens of thousands of calls with other colours and other ratios go by,
 		// then asked again: gaps around 2^8, 2^16 and 2^17 calls / ratio changes (the sizes of counters)
@@ -268,6 +315,7 @@ func C17(r *vf.Run) {
 	}
 	if r.OnlyPhase == "" {
 		r.Require("long-gaps:sequences")
+		r.Require("fades:sequences")
 		r.Require("hostile-order:zero-divisor-calls-recovered")
 		r.Require("muldiv:r:q>=256")
 		r.Require("muldiv:b:q32..255")
